@@ -2,7 +2,7 @@
     means for a close/reopen cycle to be exact, for identifiers to be fresh, for two stores to
     be observably different, and the instantiation of the theories with the concrete codecs of
     Wal/Codec.v.  Definitions only. *)
-From GV Require Export Wal.Run.
+From GV Require Export Wal.Cmp.
 Open Scope Z_scope.
 
 (** a close/reopen cycle (or crash/reopen) whose reopened store is exactly the store before it *)
